@@ -56,8 +56,20 @@ Theorem vanished_file_prefix_legal : forall r : recipe,
   asgi_legal false (asgi_vanished r) = true /\ wsgi_shape (wsgi_vanished r) = true.
 Proof. exact vanished_file_prefix_legal_proof. Qed.
 
+(* The name a file response is given (download name, or the base name of a file without a known type):
+   the constructor refuses exactly the Latin-1 names that carry CR, LF or NUL; every response that is
+   built has a Content-Disposition value without CR, LF and NUL, and a clean name gives a clean value.
+   [quoted] is urllib.parse.quote(name): percent-encoded ASCII (premise). *)
+Theorem file_disposition_clean : forall name quoted : bytes,
+  clean_text quoted = true ->
+  (file_ctor_refuses name quoted = false -> setitem_refuses (disposition name quoted) = false) /\
+  (file_ctor_refuses name quoted = true <-> is_latin1 name = true /\ setitem_refuses name = true) /\
+  (clean_text name = true -> clean_text (disposition name quoted) = true).
+Proof. exact file_disposition_clean_proof. Qed.
+
 Print Assumptions asgi_trace_legal.
 Print Assumptions asgi_fault_prefix_legal.
 Print Assumptions wsgi_trace_shape.
 Print Assumptions wsgi_headers_clean.
 Print Assumptions vanished_file_prefix_legal.
+Print Assumptions file_disposition_clean.
